@@ -26,11 +26,12 @@ struct Model {
     t1: bool,
     t2: bool,
     trusted: bool,
-    bal: [[i128; 5]; 3],
-    locked: i128,
-    released: i128,
-    minted: i128,
-    burned: i128,
+    /// tokens: 0 T1, 1 T2, 2 gas token, 3 T3 (second service-deployed token), 4 T4 (second canonical)
+    bal: [[i128; 5]; 5],
+    locked: [i128; 5],
+    released: [i128; 5],
+    minted: [i128; 5],
+    burned: [i128; 5],
     inbound: u32,
     /// (token, recipient, amount, data?) of the last successful inbound delivery
     last_in: Option<(u8, u8, i128, bool)>,
@@ -68,6 +69,9 @@ struct Ctx {
     t1_id: [u8; 32],
     t1: Address,
     t2_id: [u8; 32],
+    t3_id: [u8; 32],
+    t3: Address,
+    t4_id: [u8; 32],
     holders: Vec<Address>,
 }
 
@@ -77,7 +81,7 @@ struct C05 {
 
 impl C05 {
     fn token_addr<'a>(&self, ctx: &'a Ctx, t: usize) -> &'a Address {
-        match t { 0 => &ctx.t1, 1 => &ctx.iw.assets[0], _ => &ctx.iw.gas_token }
+        match t { 0 => &ctx.t1, 1 => &ctx.iw.assets[0], 3 => &ctx.t3, 4 => &ctx.iw.assets[1], _ => &ctx.iw.gas_token }
     }
 }
 
@@ -94,7 +98,7 @@ impl Scenario for C05 {
     fn world<'a>(&self, ctx: &'a Ctx) -> &'a World { &ctx.iw.w }
 
     fn build(&self, c: usize) -> (Ctx, Model) {
-        let iw = ItsWorld::new("stellar", 2, 1);
+        let iw = ItsWorld::new("stellar", 2, 2);
         let t1_id = interchain_token_id("stellar", &iw.sc(&iw.users[0]), &SALT);
         let t1 = iw.seat_token(&t1_id);
         let t2_id = canonical_token_id("stellar", &iw.sc(&iw.assets[0]));
@@ -103,18 +107,37 @@ impl Scenario for C05 {
         iw.mint_asset(&iw.assets[0], &iw.users[1], 5);
         iw.mint_asset(&iw.gas_token, &iw.users[0], 3);
         iw.mint_asset(&iw.gas_token, &iw.users[1], 1);
+        // a second token of each kind, present from the start: T3 deployed by U2 (supply 20), T4 registered (U1 holds 20)
+        let salt3 = [0x53u8; 32];
+        let t3_id = interchain_token_id("stellar", &iw.sc(&iw.users[1]), &salt3);
+        let t3 = iw.seat_token(&t3_id);
+        {
+            let w = &iw.w;
+            let env = &w.env;
+            let c = w.call(
+                &iw.its,
+                "deploy_interchain_token",
+                &[iw.users[1].to_val(), to_val(env, &sbytes(&salt3)), to_val(env, &metadata_scval(b"Token Three", b"THREE", 7)), w.v(20i128), to_val(env, &ScVal::Void)],
+                Auth::Setup,
+            );
+            assert!(c.ok, "{}", c.err);
+            let c = w.call(&iw.its, "register_canonical_token", &[iw.assets[1].to_val()], Auth::Nobody);
+            assert!(c.ok);
+        }
+        let t4_id = canonical_token_id("stellar", &iw.sc(&iw.assets[1]));
+        iw.mint_asset(&iw.assets[1], &iw.users[0], 20);
         let holders = vec![iw.users[0].clone(), iw.users[1].clone(), iw.app.clone(), iw.its.clone(), iw.gas.clone()];
-        let ctx = Ctx { iw, t1_id, t1, t2_id, holders };
+        let ctx = Ctx { iw, t1_id, t1, t2_id, t3_id, t3, t4_id, holders };
         let mut m = Model {
             advances: 0,
             t1: false,
             t2: false,
             trusted: true,
-            bal: [[0; 5], [20, 5, 0, 0, 0], [3, 1, 0, 0, 0]],
-            locked: 0,
-            released: 0,
-            minted: 0,
-            burned: 0,
+            bal: [[0; 5], [20, 5, 0, 0, 0], [3, 1, 0, 0, 0], [0, 20, 0, 0, 0], [20, 0, 0, 0, 0]],
+            locked: [0; 5],
+            released: [0; 5],
+            minted: [0; 5],
+            burned: [0; 5],
             inbound: 0,
             last_in: None,
         };
@@ -148,6 +171,14 @@ impl Scenario for C05 {
             }
             v.push(Act::Out { token, sender: 0, amt: Amt::One, trusted_dest: true, data: false, gas: 0, auth: false, gas_tok: 2 });
         }
+        // the second token of each kind: transfers must touch exactly that token
+        for token in [3u8, 4] {
+            for sender in 0..2usize {
+                for amt in [Amt::One, Amt::All] {
+                    v.push(Act::Out { token, sender, amt, trusted_dest: true, data: false, gas: 0, auth: true, gas_tok: 2 });
+                }
+            }
+        }
         // the gas is paid in the transferred token itself, or in the other ITS token
         for (token, gas_tok) in [(0u8, 0u8), (1, 1), (0, 1), (1, 0)] {
             for amt in [Amt::One, Amt::All] {
@@ -155,10 +186,11 @@ impl Scenario for C05 {
             }
         }
         if m.inbound < if self.thorough { 4 } else { 3 } {
-            for token in 0..2u8 {
+            for token in [0u8, 1, 3, 4] {
                 for recipient in 0..2u8 {
                     for amt in [Amt::One, Amt::All, Amt::AllPlus1, Amt::Huge] {
-                        if token == 0 && amt != Amt::One && amt != Amt::Huge { continue; }
+                        if (token == 0 || token == 3) && amt != Amt::One && amt != Amt::Huge { continue; }
+                        if token >= 3 && (recipient == 1 || amt == Amt::Huge) { continue; }
                         v.push(Act::In { token, recipient, amt });
                     }
                 }
@@ -220,8 +252,15 @@ impl Scenario for C05 {
             }
             Act::Out { token, sender, amt, trusted_dest, data, gas, auth, gas_tok } => {
                 out.kind = "outbound";
-                let (tid, registered, tix) = match token { 0 => (ctx.t1_id, m.t1, 0usize), 1 => (ctx.t2_id, m.t2, 1), _ => (UNKNOWN, false, 0) };
-                let bal = if *token < 2 { m.bal[tix][*sender] } else { 0 };
+                let (tid, registered, tix) = match token {
+                    0 => (ctx.t1_id, m.t1, 0usize),
+                    1 => (ctx.t2_id, m.t2, 1),
+                    3 => (ctx.t3_id, true, 3),
+                    4 => (ctx.t4_id, true, 4),
+                    _ => (UNKNOWN, false, 0),
+                };
+                let native = tix == 0 || tix == 3;
+                let bal = if *token != 2 { m.bal[tix][*sender] } else { 0 };
                 let x = match amt { Amt::Neg => -1, Amt::Zero => 0, Amt::One => 1, Amt::All => bal, Amt::AllPlus1 => bal + 1, Amt::Huge => 1 };
                 let gt = *gas_tok as usize;
                 let gas_registered = match gt { 0 => m.t1, _ => true };
@@ -247,7 +286,7 @@ impl Scenario for C05 {
                 );
                 out.accepted = call.ok;
                 // when the gas is paid in the transferred token the sender needs amount + gas
-                let enough_gas = if gt == tix && *token < 2 { bal >= x.max(0) + g } else { gbal >= g };
+                let enough_gas = if gt == tix && *token != 2 { bal >= x.max(0) + g } else { gbal >= g };
                 let want = *auth && registered && gas_registered && x > 0 && bal >= x && *trusted_dest && m.trusted && g > 0 && enough_gas;
                 out.expect(call.ok == want, "outbound.outcome", || {
                     format!("{:?} (amount {}, gas {}, balance {}, gas balance {}, trusted {}): ok={} ({}), model {}", a, x, g, bal, gbal, m.trusted, call.ok, call.err, want)
@@ -257,7 +296,7 @@ impl Scenario for C05 {
                     return;
                 }
                 if !want { return; }
-                if tix == 0 { m.bal[0][*sender] -= x; m.burned += x; } else { m.bal[1][*sender] -= x; m.bal[1][3] += x; m.locked += x; }
+                if native { m.bal[tix][*sender] -= x; m.burned[tix] += x; } else { m.bal[tix][*sender] -= x; m.bal[tix][3] += x; m.locked[tix] += x; }
                 m.bal[gt][*sender] -= g;
                 m.bal[gt][4] += g;
                 // the announcement
@@ -279,7 +318,7 @@ impl Scenario for C05 {
             Act::ReplayLastInbound => {
                 out.kind = "inbound-replay";
                 let (token, recipient, x, _with_data) = m.last_in.unwrap();
-                let tid = if token == 0 { ctx.t1_id } else { ctx.t2_id };
+                let tid = match token { 0 => ctx.t1_id, 1 => ctx.t2_id, 3 => ctx.t3_id, _ => ctx.t4_id };
                 let (rcpt, data): (&Address, Vec<u8>) = if recipient == 0 { (&iw.users[1], vec![]) } else { (&iw.app, b"app-data".to_vec()) };
                 let payload = abi_hub(&RHub::ReceiveFromHub {
                     chain: X.as_bytes().to_vec(),
@@ -295,8 +334,14 @@ impl Scenario for C05 {
             }
             Act::In { token, recipient, amt } => {
                 out.kind = "inbound";
-                let (tid, registered, tix) = if *token == 0 { (ctx.t1_id, m.t1, 0usize) } else { (ctx.t2_id, m.t2, 1) };
-                let custody = m.bal[1][3];
+                let (tid, registered, tix) = match token {
+                    0 => (ctx.t1_id, m.t1, 0usize),
+                    1 => (ctx.t2_id, m.t2, 1),
+                    3 => (ctx.t3_id, true, 3),
+                    _ => (ctx.t4_id, true, 4),
+                };
+                let native = tix == 0 || tix == 3;
+                let custody = if native { 0 } else { m.bal[tix][3] };
                 let x: i128 = match amt { Amt::One => 1, Amt::All => custody, Amt::AllPlus1 => custody + 1, _ => 1 };
                 let (rcpt, rix, data): (&Address, usize, Vec<u8>) = if *recipient == 0 { (&iw.users[1], 1, vec![]) } else { (&iw.app, 2, b"app-data".to_vec()) };
                 let mut payload = abi_hub(&RHub::ReceiveFromHub {
@@ -316,7 +361,7 @@ impl Scenario for C05 {
                 let h1 = w.state_hash();
                 let call = iw.execute(&iw.its, HUB_CHAIN, &mid, HUB_ADDRESS, &payload);
                 out.accepted = call.ok;
-                let want = *amt != Amt::Huge && registered && m.trusted && x >= 0 && (tix == 0 || custody >= x);
+                let want = *amt != Amt::Huge && registered && m.trusted && x >= 0 && (native || custody >= x);
                 // a zero-amount release (custody 0) is a legal no-op transfer for the asset contract
                 // a zero-amount inbound transfer moves nothing; whether it is accepted is not stated
                 let zero = x == 0 && *amt != Amt::Huge;
@@ -332,7 +377,7 @@ impl Scenario for C05 {
                 if zero { m.inbound += 1; return; }
                 m.last_in = Some((*token, *recipient, x, !data.is_empty()));
                 m.inbound += 1;
-                if tix == 0 { m.bal[0][rix] += x; m.minted += x; } else { m.bal[1][3] -= x; m.bal[1][rix] += x; m.released += x; }
+                if native { m.bal[tix][rix] += x; m.minted[tix] += x; } else { m.bal[tix][3] -= x; m.bal[tix][rix] += x; m.released[tix] += x; }
                 let mut must = vec![sstr(X), sbytes(&tid), sbytes(b"remote-sender"), w.sc_addr_val(rcpt), si128(x)];
                 if !data.is_empty() { must.push(sbytes(&data)); }
                 let r = match_events(
@@ -364,7 +409,7 @@ impl Scenario for C05 {
 
     fn probe(&self, ctx: &Ctx, m: &Model, out: &mut StepOut) {
         let iw = &ctx.iw;
-        for t in 0..3usize {
+        for t in 0..5usize {
             if t == 0 && !m.t1 { continue; }
             let tok = self.token_addr(ctx, t);
             let mut sum = 0i128;
@@ -373,12 +418,14 @@ impl Scenario for C05 {
                 out.expect(q == Some(m.bal[t][hix]), "probe.balance", || format!("token {} holder {}: {:?} vs model {}", t, hix, q, m.bal[t][hix]));
                 sum += q.unwrap_or(0);
             }
-            if t == 0 {
-                out.expect(sum == 20 + m.minted - m.burned, "probe.supply", || format!("T1 supply {} vs 20 + minted {} - burned {}", sum, m.minted, m.burned));
+            if t == 0 || t == 3 {
+                out.expect(sum == 20 + m.minted[t] - m.burned[t], "probe.supply", || format!("token {} supply {} vs 20 + minted {} - burned {}", t, sum, m.minted[t], m.burned[t]));
+            }
+            if t == 1 || t == 4 {
+                let custody = m.bal[t][3];
+                out.expect(custody == m.locked[t] - m.released[t] && custody >= 0, "probe.custody", || format!("token {} custody {} vs locked {} - released {}", t, custody, m.locked[t], m.released[t]));
             }
         }
-        let custody = m.bal[1][3];
-        out.expect(custody == m.locked - m.released && custody >= 0, "probe.custody", || format!("custody {} vs locked {} - released {}", custody, m.locked, m.released));
     }
 
     fn must_succeed_kinds(&self) -> Vec<&'static str> {
@@ -392,7 +439,7 @@ fn main() {
         let mut o = Opts::new(tier, if thorough { 9 } else { 4 });
         o.min_depth = 3;
         o.wall_cap_s = if thorough { 600.0 } else { 100.0 };
-        o.rule = "two base states (nothing deployed; T1 deployed + T2 registered); all sequences over deploy, register canonical, set/remove trusted chain, outbound interchain_transfer (token T1 / T2 / unknown id; sender U1 / U2; amount -1, 0, 1, balance, balance+1; trusted / untrusted destination; with / without data; gas 1 / unaffordable / 0 / negative, paid in the gas token or in the transferred token itself or the other ITS token; authorised by the sender or by the other user) and approved inbound transfers (replays of the last executed one included; token T1 / T2; to a user or with data to an app; amount 1, custody, custody+1; bounded count). After every new state every balance of T1, T2 and the gas token for U1, U2, app, ITS, gas service, custody == locked - released >= 0 and supply(T1) == 20 + minted - burned are compared; every successful outbound call's three events and payload are compared with the independent ABI encoding and keccak".into();
+        o.rule = "two base states (nothing deployed; T1 deployed + T2 registered); all sequences over deploy, register canonical, set/remove trusted chain, outbound interchain_transfer (token T1 / T2 / a second token of each kind T3, T4 / unknown id; sender U1 / U2; amount -1, 0, 1, balance, balance+1; trusted / untrusted destination; with / without data; gas 1 / unaffordable / 0 / negative, paid in the gas token or in the transferred token itself or the other ITS token; authorised by the sender or by the other user) and approved inbound transfers (replays of the last executed one included; token T1 / T2; to a user or with data to an app; amount 1, custody, custody+1; bounded count). After every new state every balance of T1, T2 and the gas token for U1, U2, app, ITS, gas service, custody == locked - released >= 0 and supply(T1) == 20 + minted - burned are compared; every successful outbound call's three events and payload are compared with the independent ABI encoding and keccak".into();
         (C05 { thorough }, o)
     });
 }
